@@ -46,6 +46,28 @@ theorem matcher_tokens_preserved (config : Config) (shape : Shape) (ts : List TT
       simp only
       rw [wrapMacroArgs_toks hw, parse_toks hok hp]
 
+/-- **Nothing but white space is added.**  The pieces of the returned text that are not tokens of
+the matcher consist of blanks, line feeds and tabs only (so "erasing the white space" in
+`matcher_tokens_preserved` erases nothing else). -/
+theorem matcher_adds_only_whitespace (config : Config) (shape : Shape) (ts : List TT) :
+    match formatMatcher config shape ts with
+    | some (.ok ps) => ∀ cs, Piece.ws cs ∈ ps → ∀ c ∈ cs, c = ' ' ∨ c = '\n' ∨ c = '\t'
+    | _ => True := by
+  unfold formatMatcher
+  cases hp : parseMatcher ts with
+  | none => trivial
+  | some args =>
+    simp only
+    cases hw : wrapMacroArgs config shape args with
+    | error e => trivial
+    | ok ps =>
+      simp only
+      exact wrapMacroArgs_ws (parse_ws hp) hw
+
+/-- The text is the pieces one after the other: tokens as `pprust` prints them, and white space. -/
+theorem render_is_concatenation (ps qs : List Piece) : render (ps ++ qs) = render ps ++ render qs :=
+  render_append ps qs
+
 /-- The parser alone: the parsed arguments stand for exactly the tokens of the stream. -/
 theorem parser_tokens_preserved (ts : List TT) (args : List Arg) (hok : okList ts = true)
     (h : parseMatcher ts = some args) : argsToks args = flatList ts := parse_toks hok h
